@@ -990,6 +990,17 @@ def m_truncate(it, ctx, a, m, f):
     v = L(a[0]); del v[a[1]:]; return []
 
 
+@model(r'^Vec::<.*>::split_off$')
+def m_split_off(it, ctx, a, m, f):
+    v = L(a[0]); at = a[1]
+    if not isinstance(at, int):
+        raise Unsupported('symbolic split_off index')
+    if at > len(v):
+        raise Panic('split_off index out of bounds')
+    tail = v[at:]; del v[at:]
+    return tail
+
+
 @model(r'^Vec::<.*>::append$')
 def m_append(it, ctx, a, m, f):
     v = L(a[0]); w = L(a[1]); v.extend(w); w[:] = []; return []
